@@ -201,7 +201,7 @@ func verifC04Reader() {
 func verifC04Gap() {
 	ncols := vRange("ncols", 1, vParam("maxcols", 2))
 	nrows := 2
-	nframes := vParam("nframes", 12)
+	nframes := vParam("nframes", 16)
 	data, frames := c04Stream(nframes, ncols, nrows, nil)
 	fw := ncols * nrows // words per frame
 	fs := 4 * fw
@@ -218,14 +218,14 @@ func verifC04Gap() {
 	}
 	cut := append(append([]byte(nil), data[:4*g1]...), data[4*(g1+glen):]...)
 	card := &c04Card{data: cut}
-	// second read: the gap plus a few frames; third read: the rest (so that a block follows the
-	// one in which the loss is noticed)
-	card.ends = []int{4 * fs, len(cut) - 3*fs, len(cut), len(cut), len(cut)}
-	card.times = []int64{1000000, 2000000, 3000000, 4000000, 5000000}
+	// second read: the gap plus a few frames; third and fourth read: four more frames each (so
+	// that two blocks follow the one in which the loss is noticed)
+	card.ends = []int{4 * fs, len(cut) - 8*fs, len(cut) - 4*fs, len(cut), len(cut), len(cut)}
+	card.times = []int64{1000000, 2000000, 3000000, 4000000, 5000000, 6000000}
 	ls := c04Source(card, ncols, nrows)
 	ls.launchLanceroReader()
 	var blocks []*dataBlock
-	for tick := 0; tick < 5; tick++ {
+	for tick := 0; tick < 6; tick++ {
 		vAdvance(70)
 		for more := true; more; {
 			select {
@@ -242,6 +242,10 @@ func verifC04Gap() {
 	}
 	closeIfOpen(ls.abortSelf)
 	vCheck(len(blocks) >= 2, "data keep flowing after the gap")
+	if g1 == 4*fw { // loss at a read boundary (the mid-read cases are the open known findings)
+		vCheck(card.released <= len(cut), "no more bytes are released to the driver than it delivered")
+		vCheck(len(cut)-card.released < 3*fs, "after the last read less than the three-frame minimum is still unreleased")
+	}
 	reported := 0
 	prevEnd := FrameIndex(0)
 	for i, blk := range blocks {
